@@ -137,6 +137,13 @@ func newC16Universe(k int, special bool) *c16Universe {
 		u.lenient[sp.name] = sp.lenient
 	}
 	add("http://unknown.example/psa", 2, "eat-profile", "")
+	// other strings that a URL library would consider the same resource as a pool name: they declare another profile
+	for i, pp := range u.pool {
+		if i < 2 && pp.base == 2 {
+			add("HTTP://"+pp.name[7:], 2, pp.jsonTag, "")
+			add(pp.name+"#", 2, pp.jsonTag, "")
+		}
+	}
 	// tokens that declare two profiles at once (different JSON members / CBOR keys)
 	both := func(label string, first string, base int, tag string, extraTag, extraName string, extraKey int64) {
 		c, j := dispatchTokens(first, base, tag)
